@@ -3,115 +3,248 @@ import HioModel.Tcp.IdleLemmas
 # C12 — idle HTTP server connections time out after the configured tymeout
 
 Property theorems only.  Model: `HioModel/Tcp/Idle.lean` — one server connection in virtual tyme (`Nat`, any unit):
-the remoter's tymer `start`/`stop`, its `tymeout` (0 = never), the arrivals since the last service; `svc` is one
-`http.Server.service()` for this connection in the code's order (idle check, then receive + `refresh()`, then the parsed
-request may declare the connection persistent).  Histories are arbitrary lists of `tick d`, `arrive`, `svc`.
-`accept t T` is a connection accepted at tyme `t` by a server whose configured tymeout is `T`
-(that `T` really reaches the remoter, for plain and TLS servers, is what the correspondence run checks on the code).
+the remoter's tymer `start`/`stop`, its `tymeout` (0 = never), the arrivals since the last service, the bytes queued for
+sending and how many the socket takes per `send` (0 = would block); `svc` is one `http.Server.service()` for this
+connection in the code's order (idle check, receive + `refresh()`, the parsed request may declare the connection
+persistent, the response is queued, a finished non-persistent exchange is closed by the HTTP layer, send + `refresh()`
+when at least one byte left).  Histories are arbitrary lists of `tick d`, `arrive`, `svc`, `wind t` (the server re-wound
+onto a tymist whose tyme is `t`) and `cap k` (the peer's willingness to take bytes changes).
+`accept t T r` is a connection accepted at tyme `t` by a server whose configured tymeout is `T` and whose application
+answers a request with `r` bytes (that `T` really reaches the remoter, for plain and TLS servers, is what the
+correspondence run checks on the code).  `idleClosed` is a ghost flag: closed by the idle check, as opposed to the HTTP
+layer finishing a non-persistent exchange.
 -/
 namespace Hio.Idle
 
-/-- after ANY history the tymer stops exactly one tymeout after it was last (re)started: a burst of n receives does not
-push the deadline n tymeouts away -/
-theorem deadline_invariant (t T : Nat) (evs : List Ev) :
-    (run (accept t T) evs).stop = (run (accept t T) evs).start + T ∧ (run (accept t T) evs).start ≤ (run (accept t T) evs).now :=
-  ⟨(run_wf evs (accept_wf t T)).dur, (run_wf evs (accept_wf t T)).le⟩
+/-- while the connection lives, after ANY history (traffic in either direction, bursts, partial sends, blocked sends,
+re-winds) the tymer stops exactly one tymeout after it was last (re)started -/
+theorem deadline_invariant (t T r : Nat) (evs : List Ev) (h : (run (accept t T r) evs).isOpen = true) :
+    (run (accept t T r) evs).stop = (run (accept t T r) evs).start + T ∧
+      (run (accept t T r) evs).start ≤ (run (accept t T r) evs).now :=
+  ⟨(run_wf evs (accept_wf t T r) rfl h).dur, (run_wf evs (accept_wf t T r) rfl h).le⟩
 
-/-- a service that sees traffic (however many chunks) on a live, unexpired connection restarts the tymer at the current tyme -/
+/-- what counts as traffic at a service: bytes from the peer to read, or queued output of which the socket takes ≥ 1 byte -/
+def Traffic (c : IC) : Prop := c.inbox ≠ [] ∨ 0 < min c.cap c.txlen
+
+/-- a service with traffic in either direction on a live, unexpired connection restarts the tymer at the current tyme
+(unless the HTTP layer closes it because a non-persistent exchange is complete) -/
 theorem traffic_restarts_tymer (c : IC) (T : Nat) (h : Wf c T) (ho : c.isOpen = true) (hx : expired c = false)
-    (hi : c.inbox ≠ []) : (svc c).start = c.now ∧ (svc c).stop = c.now + T ∧ (svc c).isOpen = true := by
-  unfold svc
-  simp [ho, hx, hi, h.dur]
+    (ht : Traffic c) (hs : (svc c).isOpen = true) :
+    (svc c).start = c.now ∧ (svc c).stop = c.now + T ∧ (svc c).idleClosed = c.idleClosed := by
+  unfold svc at hs ⊢
+  simp only [ho, hx, Bool.not_true, Bool.false_eq_true, ↓reduceIte] at hs ⊢
+  by_cases hi : c.inbox = []
+  · have hm : 0 < min c.cap c.txlen := by rcases ht with ht | ht; exact absurd hi ht; exact ht
+    have hin : intake c = c := by simp [intake, hi]
+    rw [hin] at hs ⊢
+    split at hs
+    · cases hs
+    · rename_i hc
+      simp only [hc, Bool.false_eq_true, ↓reduceIte, output, hm, refresh, h.dur]
+      refine ⟨trivial, ?_, trivial⟩
+      omega
+  · split at hs
+    · cases hs
+    · rename_i hc
+      simp only [hc, Bool.false_eq_true, ↓reduceIte]
+      have e1 : (intake c).now = c.now ∧ (intake c).start = c.now ∧ (intake c).stop = c.now + T ∧
+          (intake c).idleClosed = c.idleClosed := by
+        simp only [intake, hi, ↓reduceIte, refresh, h.dur]
+        refine ⟨trivial, trivial, ?_, trivial⟩
+        omega
+      unfold output
+      split
+      · simp only [refresh, e1.1, e1.2.1, e1.2.2.1, e1.2.2.2]
+        refine ⟨trivial, ?_, trivial⟩
+        omega
+      · exact ⟨e1.2.1, e1.2.2.1, e1.2.2.2⟩
+
+/-- re-winding the server onto another tymist restarts the tymer of a live connection at the new tyme -/
+theorem wind_restarts_tymer (c : IC) (T t : Nat) (h : Wf c T) (ho : c.isOpen = true) :
+    (step c (.wind t)).now = t ∧ (step c (.wind t)).start = t ∧ (step c (.wind t)).stop = t + T := by
+  simp only [step, ho, ↓reduceIte, h.dur, true_and]
+  omega
 
 /-- C12.1 a non-persistent connection that has had no traffic for (at least) the tymeout of virtual tyme is closed by the
-next service — whatever happened before, however the idle time is cut into ticks, and however many services ran in between. -/
+next service — whatever happened before (any `Wf` state: after traffic, after a re-wind, …), however the idle time is cut
+into ticks, however many services ran in between, and WHATEVER IS STILL QUEUED FOR SENDING when the peer takes nothing
+(`cap = 0`): blocked output is not traffic and does not keep the connection. -/
 theorem idle_closed (c : IC) (T : Nat) (evs : List Ev) (h : Wf c T) (hT : 0 < T) (hp : c.tymeout = T)
-    (hi : c.inbox = []) (hq : noArrivals evs = true) (hidle : T ≤ ticks evs) :
+    (hs : Still c) (hq : quiet evs = true) (hidle : T ≤ ticks evs) :
     (run c (evs ++ [Ev.svc])).isOpen = false := by
   rw [run_append]
-  have q := run_quiet evs c hq hi
-  generalize run c evs = c' at q
-  simp only [run, step]
-  unfold svc
-  by_cases ho : c'.isOpen = true
-  · have hx : expired c' = true := by
-      unfold expired
-      rw [q.2.2.1, hp, q.1, q.2.2.2.2.1, h.dur]
-      have := h.le
-      simp only [gt_iff_lt, ge_iff_le, Bool.and_eq_true, decide_eq_true_eq]
-      omega
-    simp [ho, hx]
-  · simp [ho]
+  by_cases ho : c.isOpen = true
+  · rcases run_quiet evs c hq hs ho with q | q
+    · exact run_closed [Ev.svc] _ q
+    · generalize run c evs = c' at q
+      simp only [run, step]
+      have hx : expired c' = true := by
+        unfold expired
+        rw [q.2.2.2.1, hp, q.2.1, q.2.2.2.2.2, h.dur]
+        have := h.le
+        simp only [gt_iff_lt, ge_iff_le, Bool.and_eq_true, decide_eq_true_eq]
+        omega
+      unfold svc
+      simp [q.1, hx]
+  · exact run_closed _ _ (run_closed evs c (by simpa using ho))
 
 /-- non-vacuity: accepted at 3, tymeout 8, ticks 5 + 3 with a service in between -/
-example : (run (accept 3 8) ([Ev.tick 5, Ev.svc, Ev.tick 3] ++ [Ev.svc])).isOpen = false := by decide
+example : (run (accept 3 8 130) ([Ev.tick 5, Ev.svc, Ev.tick 3] ++ [Ev.svc])).isOpen = false := by decide
+
+/-- non-vacuity with blocked output: a non-persistent request answered into a socket that takes nothing -/
+example : Still (run (accept 0 8 130) [Ev.cap 0, Ev.arrive .req10, Ev.svc]) ∧
+    (run (accept 0 8 130) [Ev.cap 0, Ev.arrive .req10, Ev.svc]).txlen = 130 ∧
+    (run (run (accept 0 8 130) [Ev.cap 0, Ev.arrive .req10, Ev.svc]) ([Ev.tick 8] ++ [Ev.svc])).isOpen = false := by
+  refine ⟨⟨by decide, Or.inr (by decide)⟩, by decide, by decide⟩
 
 /-- once closed, closed for good -/
 theorem stays_closed (c : IC) (evs : List Ev) (h : c.isOpen = false) : (run c evs).isOpen = false :=
   run_closed evs c h
 
-/-- one round of an active connection: some ticks and at least one arrival, then a service -/
-def roundOK (T : Nat) (r : List Ev) : Bool := noSvc r && hasArrival r && decide (ticks r < T)
-
 def runRounds (c : IC) : List (List Ev) → IC
   | [] => c
   | r :: rs => runRounds (svc (run c r)) rs
 
-/-- C12.2 a connection with traffic in every tymeout window is never closed for being idle: if every service comes less
-than one tymeout after the previous one (or after acceptance) and traffic arrived in between, the connection stays open
-— for any number of rounds, any tymeout > 0. -/
-theorem active_never_closed (T : Nat) (rs : List (List Ev)) : ∀ (c : IC), Wf c T → c.isOpen = true → c.now = c.start →
-    (∀ r ∈ rs, roundOK T r = true) → (runRounds c rs).isOpen = true := by
-  induction rs with
-  | nil => intro c _ ho _ _; exact ho
-  | cons r rs ih =>
-    intro c h ho hn hr
-    have hk := hr r (by simp)
-    simp only [roundOK, Bool.and_eq_true, decide_eq_true_eq] at hk
-    obtain ⟨⟨h1, h2⟩, h3⟩ := hk
-    have q := run_nosvc r c h1 ho
-    have hw : Wf (run c r) T := run_wf r h
-    have hx : expired (run c r) = false := by
-      unfold expired
-      rw [q.1, q.2.2.2.2.1, h.dur, hn]
-      simp only [gt_iff_lt, ge_iff_le, Bool.and_eq_false_imp, decide_eq_true_eq, decide_eq_false_iff_not]
-      intro _; omega
-    have t := traffic_restarts_tymer (run c r) T hw q.2.2.2.1 hx (q.2.2.2.2.2.1 h2)
-    exact ih (svc (run c r)) (svc_wf hw) t.2.2 (by rw [t.1, (svc_now (run c r))]) (fun r' hr' => hr r' (by simp [hr']))
-where
-  svc_now (c : IC) : (svc c).now = c.now := by
-    unfold svc; split; rfl; split; rfl; split <;> rfl
+/-- every round (ticks, arrivals, changes of the peer's appetite — then a service) lasts less than a tymeout and has
+traffic at its service, in either direction -/
+def ActiveRounds (T : Nat) : IC → List (List Ev) → Prop
+  | _, [] => True
+  | c, r :: rs => calm r = true ∧ ticks r < T ∧ ((run c r).isOpen = true → Traffic (run c r)) ∧
+      ActiveRounds T (svc (run c r)) rs
 
-example : roundOK 8 [Ev.tick 3, Ev.arrive .data, Ev.tick 4] = true := by decide
-example : (runRounds (accept 0 8) [[Ev.tick 7, Ev.arrive .data], [Ev.arrive .data, Ev.tick 7], [Ev.tick 3, Ev.arrive .data, Ev.tick 4]]).isOpen = true := by
+theorem svc_now (c : IC) : (svc c).now = c.now := by
+  unfold svc
+  split
+  · rfl
+  · split
+    · rfl
+    · simp only
+      have hi : (intake c).now = c.now := by unfold intake; split <;> rfl
+      split
+      · exact hi
+      · unfold output; split <;> simp [refresh, hi]
+
+/-- C12.2 a connection with traffic in every tymeout window is never closed for being idle: if every service comes less
+than one tymeout after the previous one (or after acceptance / a re-wind) and there was traffic for it — bytes from the
+peer, OR queued output of which the socket took at least one byte (a response leaving in partial sends) — the idle check
+never closes it, for any number of rounds and any tymeout.  (It may be closed by the HTTP layer when a non-persistent
+exchange is complete; that is not `idleClosed`.) -/
+theorem active_never_closed (T : Nat) (rs : List (List Ev)) : ∀ (c : IC), c.idleClosed = false →
+    (c.isOpen = true → Wf c T ∧ c.now = c.start) → ActiveRounds T c rs → (runRounds c rs).idleClosed = false := by
+  induction rs with
+  | nil => intro c hi _ _; exact hi
+  | cons r rs ih =>
+    intro c hic hw ha
+    obtain ⟨h1, h2, h3, h4⟩ := ha
+    by_cases ho : c.isOpen = true
+    · obtain ⟨hwf, hn⟩ := hw ho
+      have q := run_calm r c h1 ho
+      have hw' : Wf (run c r) T := run_wf r hwf ho q.2.2.2.1
+      have hx : expired (run c r) = false := by
+        unfold expired
+        rw [q.1, q.2.2.2.2.1, hwf.dur, hn]
+        simp only [gt_iff_lt, ge_iff_le, Bool.and_eq_false_imp, decide_eq_true_eq, decide_eq_false_iff_not]
+        intro _; omega
+      apply ih (svc (run c r)) _ _ h4
+      · by_cases hso : (svc (run c r)).isOpen = true
+        · rw [(traffic_restarts_tymer (run c r) T hw' q.2.2.2.1 hx (h3 q.2.2.2.1) hso).2.2, q.2.2.2.2.2]; exact hic
+        · -- closed, but not by the idle check: the connection had not expired
+          have : (svc (run c r)).idleClosed = (run c r).idleClosed := by
+            unfold svc
+            simp only [q.2.2.2.1, hx, Bool.not_true, Bool.false_eq_true, ↓reduceIte]
+            have hii : (intake (run c r)).idleClosed = (run c r).idleClosed := by unfold intake; split <;> rfl
+            split
+            · exact hii
+            · unfold output; split <;> simp [refresh, hii]
+          rw [this, q.2.2.2.2.2]; exact hic
+      · intro hso
+        have t := traffic_restarts_tymer (run c r) T hw' q.2.2.2.1 hx (h3 q.2.2.2.1) hso
+        exact ⟨svc_wf hw', by rw [t.1, svc_now]⟩
+    · have hc : c.isOpen = false := by simpa using ho
+      have hrc : (run c r).isOpen = false := run_closed r c hc
+      have hid : ∀ (evs : List Ev) (c : IC), c.isOpen = false → (run c evs).idleClosed = c.idleClosed := by
+        intro evs
+        induction evs with
+        | nil => intro c _; rfl
+        | cons e es ihe =>
+          intro c hcl
+          have hs : (step c e).idleClosed = c.idleClosed := by
+            cases e with
+            | tick d => rfl
+            | arrive a => simp [step, hcl]
+            | svc => simp only [step]; rw [svc_closed c hcl]
+            | wind t => simp [step, hcl]
+            | cap k => simp [step, hcl]
+          simp only [run]; rw [ihe _ (step_closed c e hcl), hs]
+      apply ih (svc (run c r)) _ _ h4
+      · rw [svc_closed _ hrc, hid r c hc]; exact hic
+      · intro hso; rw [svc_closed _ hrc, hrc] at hso; cases hso
+
+/-- non-vacuity: bytes from the peer every round -/
+example : ActiveRounds 8 (accept 0 8 130) [[Ev.tick 7, Ev.arrive .data], [Ev.arrive .data, Ev.tick 7], [Ev.tick 3, Ev.arrive .data, Ev.tick 4]] := by
+  refine ⟨by decide, by decide, fun _ => Or.inl (by decide), by decide, by decide, fun _ => Or.inl (by decide),
+    by decide, by decide, fun _ => Or.inl (by decide), trivial⟩
+
+/-- non-vacuity: send-side traffic only — a 130-byte response leaving 3 bytes per pass, 7 ticks between passes, tymeout 8 -/
+example : ActiveRounds 8 (run (accept 0 8 130) [Ev.cap 3, Ev.arrive .req10, Ev.svc]) [[Ev.tick 7], [Ev.tick 7], [Ev.tick 7]] := by
+  refine ⟨by decide, by decide, fun _ => Or.inr (by decide), by decide, by decide, fun _ => Or.inr (by decide),
+    by decide, by decide, fun _ => Or.inr (by decide), trivial⟩
+
+example : (runRounds (run (accept 0 8 130) [Ev.cap 3, Ev.arrive .req10, Ev.svc]) [[Ev.tick 7], [Ev.tick 7], [Ev.tick 7]]).isOpen = true := by
   decide
 
-/-- a complete persistent request, once serviced on a live connection, switches the idle timeout off -/
+/-- a complete persistent request, once serviced on a live unexpired connection, switches the idle timeout off -/
 theorem persistent_request_disables (c : IC) (ho : c.isOpen = true) (hx : expired c = false) (hr : Arr.req ∈ c.inbox) :
-    (svc c).tymeout = 0 ∧ (svc c).isOpen = true := by
-  unfold svc
+    (svc c).tymeout = 0 := by
   have hne : c.inbox ≠ [] := by intro e; rw [e] at hr; simp at hr
-  simp [ho, hx, hne, hr]
+  have hi : (intake c).tymeout = 0 := by simp [intake, hne, hr]
+  unfold svc
+  simp only [ho, hx, Bool.not_true, Bool.false_eq_true, ↓reduceIte]
+  split
+  · exact hi
+  · unfold output; split <;> simp [refresh, hi]
 
-/-- C12.3 a persistent connection (remoter tymeout 0), and any connection of a server configured with tymeout 0, is never closed for being idle -/
-theorem persistent_never_closed (evs : List Ev) : ∀ (c : IC), c.tymeout = 0 → c.isOpen = true →
-    (run c evs).isOpen = true ∧ (run c evs).tymeout = 0 := by
+/-- C12.3 a persistent connection (remoter tymeout 0), and any connection of a server configured with tymeout 0, is never
+closed for being idle, whatever the history -/
+theorem persistent_never_closed (evs : List Ev) : ∀ (c : IC), c.tymeout = 0 → c.idleClosed = false →
+    (run c evs).idleClosed = false ∧ (run c evs).tymeout = 0 := by
   induction evs with
-  | nil => intro c h ho; exact ⟨ho, h⟩
+  | nil => intro c h hi; exact ⟨hi, h⟩
   | cons e es ih =>
-    intro c h ho
-    cases e with
-    | tick d => exact ih _ h ho
-    | arrive a =>
-      have hs : step c (.arrive a) = { c with inbox := c.inbox ++ [a] } := by simp [step, ho]
-      simp only [run]; rw [hs]; exact ih _ h ho
-    | svc =>
-      simp only [run, step]
-      apply ih
-      · unfold svc; simp only [ho, expired, h]; simp; split <;> simp [h]
-      · unfold svc; simp only [ho, expired, h]; simp; split <;> simp [ho]
+    intro c h hi
+    apply ih
+    · cases e with
+      | tick d => exact h
+      | arrive a => simp only [step]; split; cases a <;> exact h; exact h
+      | wind t => simp only [step]; split <;> exact h
+      | cap k => simp only [step]; split <;> exact h
+      | svc =>
+        have hit : (intake c).tymeout = 0 := by unfold intake; split; exact h; simp [refresh, h]
+        simp only [step]; unfold svc
+        split
+        · exact h
+        · split
+          · exact h
+          · simp only; split
+            · exact hit
+            · unfold output; split <;> simp [refresh, hit]
+    · cases e with
+      | tick d => exact hi
+      | arrive a => simp only [step]; split; cases a <;> exact hi; exact hi
+      | wind t => simp only [step]; split <;> exact hi
+      | cap k => simp only [step]; split <;> exact hi
+      | svc =>
+        have hii : (intake c).idleClosed = false := by unfold intake; split; exact hi; simp [refresh, hi]
+        have hx : expired c = false := by simp [expired, h]
+        simp only [step]; unfold svc
+        split
+        · exact hi
+        · simp only [hx, Bool.false_eq_true, ↓reduceIte]
+          split
+          · exact hii
+          · unfold output; split <;> simp [refresh, hii]
 
-theorem zero_tymeout_never_closes (t : Nat) (evs : List Ev) : (run (accept t 0) evs).isOpen = true :=
-  (persistent_never_closed evs (accept t 0) rfl rfl).1
+theorem zero_tymeout_never_closes (t r : Nat) (evs : List Ev) : (run (accept t 0 r) evs).idleClosed = false :=
+  (persistent_never_closed evs (accept t 0 r) rfl rfl).1
 
 end Hio.Idle
